@@ -169,7 +169,7 @@ func (v *violCtx) pre() {
 	case "out_toolarge":
 		if x, ok := c.take(arg); ok {
 			tx := v.spendTx(x, true, 0)
-			switch mod(arg, 5) {
+			switch mod(arg, 6) {
 			case 0:
 				tx.Out[0].Value = consensus.MaxMoney + 1
 			case 1:
@@ -180,10 +180,22 @@ func (v *violCtx) pre() {
 			case 3: // each in range, total above the limit
 				tx.Out[0].Value = consensus.MaxMoney
 				tx.Out = append(tx.Out, wire.TxOut{Value: consensus.MaxMoney, PkScript: s.B.True()})
-			default: // 2^64-1 plus the input value + 1 wraps to the input value
+			case 4: // 2^64-1 plus the input value + 1 wraps to the input value
 				tx.Out[0].Value = ^uint64(0)
 				tx.Out = append(tx.Out, wire.TxOut{Value: x.coin.Value + 1, PkScript: s.B.True()})
+			default: // 8785 outputs, each one in range, whose total wraps around 2^64 to exactly the input value
+				const n = 8784
+				rest := uint64(1<<64-n*consensus.MaxMoney) + x.coin.Value // 2^64 - n*21e14 = 344073709551616
+				if rest <= consensus.MaxMoney {
+					tx.Out[0].Value = rest
+					for i := 0; i < n; i++ {
+						tx.Out = append(tx.Out, wire.TxOut{Value: consensus.MaxMoney, PkScript: []byte{0x51}})
+					}
+				} else {
+					tx.Out[0].Value = consensus.MaxMoney + 1
+				}
 			}
+			v.sub = []string{"max+1", "2^63", "two-wrap", "two-in-range", "max-u64-wrap", "8785-in-range-wrap"}[mod(arg, 6)]
 			c.rawTx(tx)
 			v.effective = true
 		}
@@ -236,10 +248,21 @@ func (v *violCtx) pre() {
 			c.rawTx(tx)
 		}
 	case "bad_script":
-		if c.addTx(TxSpec{Ins: []int{arg, arg / 3}, Outs: []OutSpec{{Fam: arg, Share: 1}}}, false) != nil {
-			id := c.txs[len(c.txs)-1].TxID()
-			last := len(c.txs[len(c.txs)-1].In) - 1
-			v.effective = !s.B.Valid[consensus.OutKey(id, uint32(last))]
+		// 1..4 inputs, the failing one first, in the middle or last
+		ins := []int{arg, arg / 3, arg / 7, arg / 11}[:1+mod(arg/5, 4)]
+		c.badPos = mod(arg/2, 4)
+		if c.addTx(TxSpec{Ins: ins, Outs: []OutSpec{{Fam: arg, Share: 1}}}, false) != nil && c.bad >= 0 {
+			v.effective = true
+			v.sub = []string{"first-input", "inner-input", "last-input"}[func() int {
+				n := len(c.txs[len(c.txs)-1].In)
+				switch {
+				case c.bad == n-1:
+					return 2
+				case c.bad == 0:
+					return 0
+				}
+				return 1
+			}()]
 		}
 	case "nonfinal":
 		if x, ok := c.take(arg); ok {
